@@ -200,11 +200,21 @@ CLAIMS.update({
                 text="Attribute.tla models Read / Write on Value (user access level, type family check, index ranges with SubSeq semantics on characters / bytes / elements) for Int32, Int32[4], ASCII and multi-byte String, ByteString and Byte[] variables in read-only / writable / user-not-writable variants; AttributeProps.tla is the property over observation records; TLC checks the design and shows that byte-indexed strings violate it; every single call, every pair and reduced triples (5 attribute ids x 11 index range strings x 9 written value classes) are replayed through the real Attribute services; the monitor requires a status and no panic for every combination, Good only with user write access and a compatible type family, read-after-Good-write equality (incl. index ranges), Bad write => unchanged."),
 })
 
+
+SESS_NOTE = ("Trusted: TLC/SANY and the python driver; the harness's token construction (openssl RSA), the connection / channel / timeout / effect facts it records, its mapping of real channel ids to the n-th distinct id; requests dispatched decoded via the verif_message hook after a real HELLO + OpenSecureChannel per connection; timeouts modelled by moving last_service_request_timestamp into the past through the public setter.")
+CLAIMS.update({
+    "C19": dict(engine="session", level="model_checking", note=SESS_NOTE,
+                text="Session.tla specifies sessions found by token in the server-wide session manager, their binding to a connection's secure channel id, activation and de-activation, close, timeout and the dispatch guard of validate_service_request; TLC checks the C19 monitor (a non-discovery, non-session service is carried out only for a token naming a session of this connection that is activated, bound to the current channel, not timed out, not closed; a fault changes nothing; a closed token is dead) for all histories up to 6 (8) requests on 2 connections and 2 sessions, and a deviation model exhibits the cross-connection token use that was repaired; TLC-generated histories (exhaustive + simulation) are replayed through the real MessageHandler of a real server and judged by the same monitor in TLC."),
+    "C20": dict(engine="auth", level="model_checking", note=SESS_NOTE + " The table is three-valued where the statement is silent (null token on an anonymous endpoint, another valid encryption algorithm).",
+                text="AuthTable.tla is the decision table of ActivateSession over 5 endpoint configurations x 2 security policies x token kinds (anonymous, user name plain / encrypted for the current or an EARLIER nonce / wrong algorithm, X.509 with good / bad signature and configured / unconfigured thumbprint, issued, garbage) x policy id, user, password variations (2088 points); TLC checks the specified decision for every point and emits them; histories with nonce generations and byte-identical replays of earlier tokens are model-checked and generated; every point and history runs through the real ActivateSession of a real server; the results are judged by the TLA+ predicate / monitor in TLC."),
+})
+
 NOT_APPLICABLE = {
     "C41": "identity of a third-party YAML serializer over configuration records: no state, transition or case analysis for a TLA+ specification to own, and TLC cannot enumerate the string space that matters (DESIGN.md section 5)",
     "C42": "encode/decode fidelity of serde implementations with identity as the only oracle: outside what a TLA+ model decides (DESIGN.md section 5)",
 }
 ENGINES = [
+    {"name": "h_session", "path": "/verif/h_session", "serves_properties": ["C19", "C20"], "kind_free_text": "replays Session.tla histories and AuthTable.tla points through the real session services of a real server (several endpoint / user configurations); judged by TraceSession / TraceAuthTable"},
     {"name": "h_view", "path": "/verif/h_view", "serves_properties": ["C30", "C32"], "kind_free_text": "replays Browse.tla / Attribute.tla behaviours through the real View, NodeManagement and Attribute services; judged by TraceBrowse / TraceAttribute"},
     {"name": "h_channel", "path": "/verif/h_channel", "serves_properties": ["C07", "C08", "C09"], "kind_free_text": "real chunking + channel security round trips, byte-position tampering and malformed-shape chunks; judged by TraceChunkLayout / TraceTamper / TraceTotality"},
     {"name": "services", "path": "/verif/harness/src/e_services.rs", "serves_properties": ["C33"], "kind_free_text": "concretises the abstract requests of Services.tla and sends them through the real MessageHandler; judged by TraceServices.tla"},
